@@ -211,6 +211,82 @@ theorem c25_key_tamper (C : Crypto) (decode : Bytes → Option Node) (parseTime 
     have : (C.nameOf pk != name) = true := by simp [hn]
     simp [validateWithName, extractKey, hlen, hp, this]
 
+/-- With a nil key book `Validator.Validate` is `ValidateWithName` after unmarshalling. -/
+theorem c25_validator_nil_book (C : Crypto) (decode : Bytes → Option Node) (parseTime : Bytes → Option Int)
+    (now : Int) (name : Option Nat) (rawLen : Nat) (pb : Option Pb) :
+    validatorValidateKB C decode parseTime now none name rawLen pb =
+      validatorValidate C decode parseTime now name rawLen pb := by
+  unfold validatorValidateKB validatorValidate
+  cases name with
+  | none => rfl
+  | some n =>
+    simp only
+    cases unmarshal decode rawLen pb with
+    | error e => rfl
+    | ok r =>
+      simp only [getPublicKey, validateWithName]
+      cases hk : extractKey C r n with
+      | ok pk => rfl
+      | error e => cases e <;> rfl
+
+/-- Self-consistency of the embedded key, for EVERY key book (nil, empty, or already holding the
+name's key): a record whose embedded public key does not parse is rejected with ErrInvalidPublicKey,
+and one whose embedded key hashes to another name with ErrPublicKeyMismatch — the key book is only
+consulted when record and name carry no key at all. (A validated record's `PubKey()` never fails.) -/
+theorem c25_bad_embedded_key_any_book (C : Crypto) (decode : Bytes → Option Node) (parseTime : Bytes → Option Int)
+    (now : Int) (book : Option (Nat → Option Nat)) (name rawLen : Nat) (pb : Pb) (r : Record)
+    (hu : unmarshal decode rawLen (some pb) = .ok r) (hk : r.pb.pubKey ≠ []) :
+    (C.parseKey r.pb.pubKey = none →
+      validatorValidateKB C decode parseTime now book (some name) rawLen (some pb) = .error .invalidKey) ∧
+    (∀ pk, C.parseKey r.pb.pubKey = some pk → C.nameOf pk ≠ name →
+      validatorValidateKB C decode parseTime now book (some name) rawLen (some pb) = .error .keyMismatch) := by
+  have hlen : (r.pb.pubKey.length != 0) = true := by
+    have : r.pb.pubKey.length ≠ 0 := fun e => hk (List.eq_nil_of_length_eq_zero e)
+    simp [this]
+  constructor
+  · intro hp
+    simp [validatorValidateKB, hu, getPublicKey, extractKey, hlen, hp]
+  · intro pk hp hn
+    have : (C.nameOf pk != name) = true := by simp [hn]
+    simp [validatorValidateKB, hu, getPublicKey, extractKey, hlen, hp, this]
+
+/-- With a key book, a record that validates was verified either with the key it embeds / its name
+inlines, or — only when there is no such key — with the book's key for that name. -/
+theorem c25_validator_book_implies (C : Crypto) (decode : Bytes → Option Node) (parseTime : Bytes → Option Int)
+    (now : Int) (book : Option (Nat → Option Nat)) (name rawLen : Nat) (pb : Option Pb)
+    (h : validatorValidateKB C decode parseTime now book (some name) rawLen pb = .ok ()) :
+    ∃ r pk, unmarshal decode rawLen pb = .ok r ∧
+      (extractKey C r name = .ok pk ∨
+        (extractKey C r name = .error .keyNotFound ∧ ∃ kb, book = some kb ∧ kb name = some pk)) ∧
+      C.verify pk (sigPrefix ++ r.pb.data) r.pb.sigV2 = true := by
+  unfold validatorValidateKB at h
+  simp only at h
+  cases hu : unmarshal decode rawLen pb with
+  | error e => simp [hu] at h
+  | ok r =>
+    simp only [hu] at h
+    cases hg : getPublicKey C book r name with
+    | error e => simp [hg] at h
+    | ok pk =>
+      simp only [hg] at h
+      refine ⟨r, pk, rfl, ?_, (validate_ok C decode parseTime now r pk h).2.2.2.1⟩
+      unfold getPublicKey at hg
+      cases he : extractKey C r name with
+      | ok pk' => simp only [he, Except.ok.injEq] at hg; subst hg; exact .inl rfl
+      | error e =>
+        rw [he] at hg
+        cases e <;> simp only at hg <;> try (simp at hg)
+        cases book with
+        | none => simp at hg
+        | some kb =>
+          simp only at hg
+          cases hkb : kb name with
+          | none => simp [hkb] at hg
+          | some pk' =>
+            simp only [hkb, Except.ok.injEq] at hg
+            subst hg
+            exact .inr ⟨rfl, kb, rfl, hkb⟩
+
 /-- Expired records and negative TTLs are rejected. -/
 theorem c25_expired_or_negative_ttl (C : Crypto) (decode : Bytes → Option Node) (parseTime : Bytes → Option Int)
     (now : Int) (r : Record) (pk : Nat) (h : validate C decode parseTime now r pk = .ok ()) :
